@@ -28,7 +28,7 @@ ASSUMPTIONS = [
 NOT_REACHED = ["non-increasing frequency grids", "find_peaks_kwargs with prominence/width", "grids above 400 points"]
 BUDGET = {"quick": dict(cases=5000, seconds=60, shards=4),
           "thorough": dict(cases=300000, seconds=600, shards=16)}
-REQUIRED = ["mon:cached-peak-matches-stored-range", "mon:mean-curve-peak", "mon:nan-peak-not-in-statistics",
+REQUIRED = ["mon:query-leaves-peak-state-unchanged", "mon:cached-peak-matches-stored-range", "mon:mean-curve-peak", "mon:nan-peak-not-in-statistics",
             "invariant_evaluations"]
 
 CTX = [None]
@@ -227,6 +227,17 @@ def fam_curve(ctx, rng):
         ctx.check(tuple(c._search_range_in_hz) == tuple(r), "stored-range-is-requested-range",
                   "stored search range differs from the requested one", stored=c._search_range_in_hz, asked=list(r))
         if diffuse:
+            # a QUERY with another range (or a failing one) must not change the object's own range / peak
+            before_q = (c._search_range_in_hz, repr(c.peak_frequency), repr(c.peak_amplitude), repr(c.meta.get("search_range_in_hz")))
+            r_other, _ = gen_range(rng, f)
+            try:
+                c.mean_curve_peak(search_range_in_hz=r_other)
+            except ValueError:
+                pass
+            after_q = (c._search_range_in_hz, repr(c.peak_frequency), repr(c.peak_amplitude), repr(c.meta.get("search_range_in_hz")))
+            ctx.check(before_q == after_q, "query-leaves-peak-state-unchanged",
+                      "asking for the mean-curve peak in another range changed the object's own search range / peak",
+                      before=list(before_q), after=list(after_q), asked=list(r_other))
             o = Oracle(f, y, tuple(r))
             try:
                 fp, ap = c.mean_curve_peak(search_range_in_hz=r)
@@ -240,7 +251,21 @@ def fam_curve(ctx, rng):
     nontrivial_sig(ctx, cls.__name__, gk, cc, f.size, [h[1] for h in hist])
 
 
+def _peak_state(obj):
+    import hvsrpy
+    hs = obj.hvsrs if isinstance(obj, hvsrpy.HvsrAzimuthal) else [obj]
+    return [(h._search_range_in_hz, h._main_peak_frq.tobytes(), h._main_peak_amp.tobytes(),
+             h.valid_window_boolean_mask.tobytes(), h.valid_peak_boolean_mask.tobytes()) for h in hs]
+
+
 def _mean_peak_check(ctx, obj, label, f, search_range, dists=("lognormal", "normal")):
+    st0 = _peak_state(obj)
+    _mean_peak_check_inner(ctx, obj, label, f, search_range, dists)
+    ctx.check(_peak_state(obj) == st0, "query-leaves-peak-state-unchanged",
+              f"{label}: mean_curve / mean_curve_peak queries changed the cached peaks, masks or search range")
+
+
+def _mean_peak_check_inner(ctx, obj, label, f, search_range, dists=("lognormal", "normal")):
     for d in dists:
         try:
             mc = np.asarray(obj.mean_curve(d), dtype=float)
@@ -369,7 +394,7 @@ def fam_repo_tests(ctx, rng):
     import subprocess
     import sys
     import tempfile
-    if ctx.tier != "thorough" or ctx.shard != 0 or ctx.counters.get("repo_test_runs", 0):
+    if ctx.tier != "thorough" or not ctx.once_per_run("repo-tests"):
         return fam_traditional(ctx, rng)
     ctx.count("repo_test_runs")
     import hvsrpy
